@@ -18,9 +18,10 @@ pub fn workload(ctx: &Ctx, which: Which, base: u64, per_shard: usize, runs: usiz
             let mut c = make_case(&mut rng, &prof, None, Some(&style));
             if k % 4 == 3 && which == Which::C01 {
                 // directed families: stack slots carried around nested loops, CSR traffic, functions that loop to their own entry
-                let s = match rng.below(4) {
-                    0 | 1 => crate::shapes::slot_loop_family(&mut rng),
-                    2 => crate::shapes::csr_family(&mut rng),
+                let s = match rng.below(9) {
+                    0..=3 => crate::shapes::slot_loop_family(&mut rng),
+                    4 | 5 => crate::shapes::csr_family(&mut rng),
+                    6 => crate::shapes::unlisted_ecall_family(&mut rng),
                     _ => crate::shapes::self_loop_family(&mut rng),
                 };
                 acc.note("shapes", s.name);
